@@ -1,7 +1,10 @@
 (* Model.KVRangeRun: case type and executable checkers for Run/cases_C05.v (no proofs). *)
 From DV Require Import Base.Prelude Base.Int Base.Lex Base.KeyShape Gen.Consts Gen.KeyClasses Gen.LocalConstsKV
-     Model.Keys Model.KV Model.KVRange Model.KeysRun.
+     Model.Keys Model.KV Model.KVRange Model.KeysRun
+     Model.Dag Model.Resolve Model.Core Model.Refine.
 Local Open Scope N_scope.
+(* Model.Core.store (a projection) must not shadow the byte store type *)
+Notation store := KV.store.
 
 (* what the real resolver (VersionedCtx.VersionedKeyValue at the case's version) answered for the
    stored entries of one TKey *)
@@ -50,7 +53,7 @@ Record wquery := {
 
 Inductive c05case :=
 (* one version of one branched history of a keyvalue instance *)
-| CVersion (i v : N) (s : store) (table : list (bytes * verdict))
+| CVersion (i v : N) (g : list (N * list N)) (s : store) (table : list (bytes * verdict))
            (points : list (bytes * res (option bytes) * res (option bytes)))   (* key string, db.Get, GET key/k *)
            (all_keys : res (list bytes))                                       (* GET keys *)
            (multi : res (list (bytes * bytes)))                                (* POST-body GET keyvalues?json=true for all key strings *)
@@ -74,7 +77,7 @@ Inductive c05case :=
    operation returned in the right order (reads) / that are readable afterwards (writes) *)
 | CBatch (what : nat) (threshold count : N) (found : N) (outside_before outside_after : N) (ok : bool)
 (* db.DeleteRange(VersionedCtx(i, v), lo, hi) with TKeys lo, hi; db.Get of every (version, TKey) before and after *)
-| CDeleteRange (i v : N) (before : store) (table : list (bytes * verdict)) (lo hi : bytes)
+| CDeleteRange (i v : N) (g : list (N * list N)) (before : store) (table : list (bytes * verdict)) (lo hi : bytes)
                (go_ok : bool) (after : store)
                (reads_before reads_after : list (N * bytes * res (option bytes)))
                (* db.KeysInRange at v over the whole class before and after, and over [lo, hi] after *)
@@ -114,13 +117,120 @@ Definition query_ok (table : list (bytes * verdict)) (i v : N) (s : store) (q : 
   | _ => true
   end.
 
+
+(* ==== Round 4: the refinement evaluated on the driver's cases ====
+   From a raw dump of the instance and the version DAG (in DVID version ids) the abstract core of
+   Model.Core is rebuilt — abstract key n = the n-th distinct TKey of the dump, value id = position
+   of the entry in the dump — and the implementation's answers are compared with (a) the byte-level
+   model run with the resolver [best_of_core] (Model.Resolve.read over the stored keys, instead of
+   the table of the real resolver's verdicts) and (b) the abstract answers of Props/Refine.v
+   (Refine_kv_get_data / _kv_keys / _kv_keyrange / _get_range_exec / _keys_in_range /
+   _delete_range): [point_of (get c k v)], [abs_keys_in_range], [abs_get_range], [core_delete_range]. *)
+Definition dump_tkeys (s : store) : list bytes :=
+  rev (fold_left (fun acc e => let t := key_tkey (fst e) in
+                               if existsb (bytes_eqb t) acc then acc else t :: acc) s []).
+Fixpoint index_of (t : bytes) (l : list bytes) (n : N) : option N :=
+  match l with
+  | [] => None
+  | x :: r => if bytes_eqb t x then Some n else index_of t r (n + 1)
+  end.
+Definition dump_enc (tks : list bytes) (n : N) : bytes := nth (N.to_nat n) tks [].
+Definition dump_venc (s : store) (x : N) : bytes := snd (nth (N.to_nat x) s ([], [])).
+Definition dump_kstr (tks : list bytes) (n : N) : bytes :=
+  match decode_term_tkey kc_keyvalue_NewTKey (dump_enc tks n) with Ok k => k | _ => [] end.
+
+(* the abstract entries of a dump, in dump order; None when a key is not a well-formed data key
+   or its TKey is not among tks *)
+Fixpoint dump_entries (tks : list bytes) (s : store) (pos : N) : option (list ((N * N) * entry)) :=
+  match s with
+  | [] => Some []
+  | (k, _) :: r =>
+    match index_of (key_tkey k) tks 0, version_from_key (Some k), dump_entries tks r (pos + 1) with
+    | Some n, Ok ver, Some l => Some (((n, ver), if is_tombstone k then Tomb else Val pos) :: l)
+    | _, _, _ => None
+    end
+  end.
+Definition dag_core (g : list (N * list N)) (entries : list ((N * N) * entry)) : core :=
+  {| next := fold_left N.max (map fst g) 1 + 1; dag := g; nodes := map fst g;
+     locked := flat_map snd g; Core.store := rev entries |}.
+(* Refines, executably: replaying the abstract entries through the byte-level Put / Delete of
+   Model.KV under (i, version) rebuilds the dump *)
+Definition rebuild (i : N) (tks : list bytes) (s : store) (entries : list ((N * N) * entry)) : store :=
+  fold_left (fun acc e => match e with
+                          | ((k, ver), Val x) => put (rcx i ver) (dump_enc tks k) (dump_venc s x) acc
+                          | ((k, ver), Tomb) => delete (rcx i ver) (dump_enc tks k) acc
+                          end) entries [].
+
+Definition abs_point (tks : list bytes) (s : store) (c : core) (v : N) (tk : bytes) : res (option bytes) :=
+  match index_of tk tks 0 with
+  | Some n => Ok (point_of (dump_venc s) (get c n v))
+  | None => Ok None
+  end.
+Definition nul_free (k : bytes) : bool := negb (existsb (N.eqb 0) k).
+
+Definition refine_version_ok (i v : N) (g : list (N * list N)) (s : store)
+           (points : list (bytes * res (option bytes) * res (option bytes)))
+           (all_keys : res (list bytes)) (queries : list c05query) : bool :=
+  let tks := dump_tkeys s in
+  match dump_entries tks s 0 with
+  | None => false
+  | Some entries =>
+    let c := dag_core g entries in
+    let enc := dump_enc tks in let venc := dump_venc s in let kstr := dump_kstr tks in
+    let best := best_of_core c v in
+    let cx := cxof i v in
+    store_eqb (rebuild i tks s entries) s &&
+    forallb (fun p => let '(k, gdb, _) := p in
+               if nul_free k then
+                 res_eqb (opt_eqb bytes_eqb) gdb (abs_point tks s c v (kv_tkey k)) &&
+                 res_eqb (opt_eqb bytes_eqb) gdb (kv_get_data best cx k s)
+               else true) points &&
+    okeys_eqb all_keys (res_map (map kstr) (abs_keys_in_range enc c v (min_tkey 177) (max_tkey 177))) &&
+    okeys_eqb all_keys (kv_keys best cx s) &&
+    forallb (fun q =>
+      if nul_free (q_lo q) && nul_free (q_hi q) && lex_leb (q_lo q) (q_hi q) then
+        let a := kv_tkey (q_lo q) in let b := kv_tkey (q_hi q) in
+        okeys_eqb (q_keys q) (res_map (map enc) (abs_keys_in_range enc c v a b)) &&
+        okv_eqb (q_range q) (res_map (map (fun kx => (enc (fst kx), venc (snd kx)))) (abs_get_range enc c v a b)) &&
+        okeys_eqb (q_http_keyrange q) (res_map (map kstr) (abs_keys_in_range enc c v a b)) &&
+        okeys_eqb (q_http_keyrange q) (kv_keyrange best cx (q_lo q) (q_hi q) s) &&
+        okv_eqb (q_range q) (get_range best cx a b s)
+      else true) queries
+  end.
+
+Definition refine_delete_ok (i v : N) (g : list (N * list N)) (before : store) (lo hi : bytes) (go_ok : bool)
+           (after : store) (reads_after : list (N * bytes * res (option bytes))) : bool :=
+  let tks := dump_tkeys before in
+  match dump_entries tks before 0 with
+  | None => false
+  | Some entries =>
+    let c := dag_core g entries in
+    let enc := dump_enc tks in
+    if negb (lex_leb lo hi) then true else
+    match core_delete_range enc c v lo hi with
+    | Ok c' =>
+      go_ok &&
+      (* the abstract operation's reads = the real reads after DeleteRange, at every version read *)
+      forallb (fun e => let '(ver, tk, gdb) := e in
+                 res_eqb (opt_eqb bytes_eqb) gdb (abs_point tks before c' ver tk)) reads_after &&
+      (* the byte-level DeleteRange run with the core's resolver produces the real store *)
+      match delete_range (best_of_core c v) (cxof i v) lo hi before with
+      | Ok s' => store_eqb s' after
+      | _ => false
+      end
+    | _ => true    (* a conflict inside the interval: guard of Refine_delete_range *)
+    end
+  end.
+
 Definition model_ok (c : c05case) : bool :=
   match c with
-  | CVersion i v s table points all_keys multi queries =>
+  | CVersion i v g s table points all_keys multi queries =>
     forallb (fun p => let '(k, g, _) := p in
                       res_eqb (opt_eqb bytes_eqb) g (point_model table i v k s)) points &&
     okeys_eqb all_keys (kv_keys (best_of table) (cxof i v) s) &&
-    forallb (query_ok table i v s) queries
+    forallb (query_ok table i v s) queries &&
+    (* the refinement (Props/Refine.v) on the same case; g = [] : no DAG given *)
+    match g with [] => true | _ => refine_version_ok i v g s points all_keys queries end
   | CWide i v s table points all_keys queries =>
     let best := best_of table in
     let cx := cxof i v in
@@ -149,11 +259,12 @@ Definition model_ok (c : c05case) : bool :=
       okeys_eqb (m_keys q) (keys_in_range best cx (m_lo q) (m_hi q) s) &&
       okeys_eqb (m_send q) (match consume (versioned_range best cx (m_lo q) (m_hi q) true s) with
                             | Ok l => Ok (map fst l) | Err => Err | Panic => Panic end)) queries
-  | CDeleteRange i v before table lo hi go_ok after _ _ _ _ _ _ =>
+  | CDeleteRange i v g before table lo hi go_ok after _ reads_after _ _ _ _ =>
     match delete_range (best_of table) (cxof i v) lo hi before with
     | Ok s' => go_ok && store_eqb s' after
     | _ => false
-    end
+    end &&
+    match g with [] => true | _ => refine_delete_ok i v g before lo hi go_ok after reads_after end
   end.
 
 (* ---- the property, evaluated on what the implementation returned ----
@@ -236,7 +347,7 @@ Definition worse (a b : nat) : nat :=
 
 Definition spec_class (c : c05case) : nat :=
   match c with
-  | CVersion i v s table points all_keys multi queries =>
+  | CVersion i v g s table points all_keys multi queries =>
     let universe := sort_keys (map (fun p => fst (fst p)) points) in
     let get_http k := match find (fun p => bytes_eqb (fst (fst p)) k) points with Some (_, _, g) => g | None => Ok None end in
     let strict := filter (fun k => found (get_http k)) universe in
@@ -309,7 +420,7 @@ Definition spec_class (c : c05case) : nat :=
         | Panic, _, _, _ | _, Panic, _, _ | _, _, Panic, _ | _, _, _, Panic => 6%nat
         | _, _, _, _ => 4%nat
         end) queries) 0%nat
-  | CDeleteRange i v before table lo hi go_ok after reads_before reads_after keys_before keys_after keys_after_in desc =>
+  | CDeleteRange i v g before table lo hi go_ok after reads_before reads_after keys_before keys_after keys_after_in desc =>
     if negb go_ok then 6%nat
     else
       let get (l : list (N * bytes * res (option bytes))) (ver : N) (tk : bytes) :=
